@@ -1509,13 +1509,15 @@ func (m *repoManager) setNodeNote(uuid dvid.UUID, note string) error {
 		return ErrInvalidVersion
 	}
 
+	// Lock order is repo, then node (as in commit, addToNodeLog and save); taking them the other way round here
+	// deadlocked against a concurrent save of the repo.
+	r.Lock()
 	node.Lock()
 	node.note = note
 	t := time.Now()
-	r.Lock()
 	r.updated, node.updated = t, t
-	r.Unlock()
 	node.Unlock()
+	r.Unlock()
 	return r.save()
 }
 
